@@ -201,7 +201,7 @@ func (c *CompileResult) FirstError() string {
 	return strings.TrimSpace(es[0].Code + " " + es[0].Message)
 }
 
-var panicSite = regexp.MustCompile(`(?m)^(compiler/[^\s(]+|main\.[^\s(]+)\(`)
+var panicSite = regexp.MustCompile(`(?m)^((?:compiler/|main\.)\S*?)\([^()]*\)$`)
 var panicMsg = regexp.MustCompile(`(?m)^(panic: .*|fatal error: .*)$`)
 
 // CrashSite normalises a Go crash to "function @ message".
